@@ -964,7 +964,7 @@ func TestVerifC17(t *testing.T) {
 	idx, n, child := r.Shard()
 	if !child {
 		r.PanicIsViolation = true
-		r.RunShards(vk.Workers(), 1)
+		r.RunShards(3*vk.Workers(), 1) // more shards than cores: subtree sizes differ by orders of magnitude
 		r.Finish("explicit-state search over the real LocalSuperior/LocalCollector/RemoteCollector/RemoteSuperior/connection code: actions = add a broadcast qualities task (<=2), add a targeted proof task, remove a task, a waiter reads one report, connect a collector, stop a collector (for the relay: stop its superior-side end, stop its far end, or drop the link), fire the next virtual timer; every order explored with canonical-state pruning; in every state reports read so far belong to their task, carry the producing collector's tag and content and are in slot order per collector; at terminal states every live waiter drains its channel and then no call may be pending (RemoveTask / collector stop return), each task reached the keeper of every collector connected while it was current exactly once and a targeted task only its target, nothing panicked")
 	}
 	var states, trans, terminals, reports, deliveries int64
